@@ -108,3 +108,34 @@ sub('algorithm/newton/newton.go','''      if constraints.Value == nil || constra
     }
     // evaluate objective function
     y, J, err = f(x2)''')
+# --- root package (generated instances edited directly, as a maintainer patching one instance would)
+# dense MdotM: merge the two-step accumulation into one statement and rename the scratch variable (one twin only)
+sub('matrix_dense_float64_math.go','''        t2 = float64(0)
+        for k := 0; k < m1; k++ {
+          t1 = a.ConstAt(i, k).GetFloat64()*b.ConstAt(k, j).GetFloat64()
+          t2 = t2 + t1
+        }
+        t3[j] = t2''','''        t2 = float64(0)
+        for k := 0; k < m1; k++ {
+          t2 = t2 + a.ConstAt(i, k).GetFloat64()*b.ConstAt(k, j).GetFloat64()
+        }
+        t3[j] = t2''')
+# scalar Sin: declare the lazies before the value
+sub('scalar_real64_math.go','''  x := a.GetFloat64()
+  v0 := math.Sin(x)
+  f1 := func() float64 { return math.Cos(x) }
+  f2 := func() float64 { return -math.Sin(x) }
+  return c.monadicLazy(a, v0, f1, f2)''','''  x := a.GetFloat64()
+  f2 := func() float64 { return -math.Sin(x) }
+  f1 := func() float64 { return math.Cos(x) }
+  v0 := math.Sin(x)
+  return c.monadicLazy(a, v0, f1, f2)''')
+# AVL insert: the two directions written in the other order
+sub('avl-tree.go','''    case i  < parent.Value: parent.setLeft (NewAvlNode(i))
+    case i  > parent.Value: parent.setRight(NewAvlNode(i))''','''    case i  > parent.Value: parent.setRight(NewAvlNode(i))
+    case i  < parent.Value: parent.setLeft (NewAvlNode(i))''')
+# dense vector Clone written with append instead of make+copy
+sub('vector_dense_float64.go','''  r := make([]float64, v.Dim())
+  copy(r, v)
+  return r''','''  r := append([]float64(nil), v...)
+  return r''')
